@@ -21,4 +21,16 @@ example : (rstep (Res.init 7) (.finish 1)).value = some (1, 7) ∧
     (rstep (rstep (Res.init 7) (.write 1)) (.finish 1)).value = none ∧
     (rstep (rstep (Res.init 7) (.write 1)) (.finish 1)).loading = true := by decide
 
+/-- repair D29: with an observer of the resource's own boundary, every step is a machine step of a translated event, and the fetch
+that a write starts is one for the value the dependency HAS after the observer reacted -/
+theorem C15_boundary_observer_step (r : Res) (e : REv) : boStep r e = rstep r (boEv r e) := rfl
+
+theorem C15_boundary_observer_write (r : Res) (v : Nat) :
+    (boStep r (.write v)).latestDep = (boStep r (.write v)).dep ∧ (boStep r (.write v)).loading = true ∧
+    (boStep r (.write v)).started = r.started + 1 := by
+  by_cases h : (!r.loading && v % 2 == 1) = true <;> simp [boStep, boEv, h, rstep]
+
+example : (boStep (rstep (boInit 7) (.finish 1)) (.write 11)).latestDep = 12 ∧ (boInit 7).dep = 8 ∧
+    (boStep (boInit 7) (.write 11)).latestDep = 11 := by decide
+
 end SycVerif.Async
